@@ -323,6 +323,7 @@ func checkC13(c *Check) {
 	c.connUsesInbound("C13.2 reject-paths")
 	c.capturedVarDiscipline("C13.4 every-listener-served")
 	c.notificationReachesManager("C13.3 hold-down-entered")
+	c.optionSettersVerbatim("C13.1 configured-local-address")
 }
 
 // connUsesInbound: in handleInboundConn and incomingConnection the conn
